@@ -147,18 +147,12 @@ Proof.
   rewrite <- (c_conn _ _ _ _ _ _ _ C). rewrite <- (c_win _ _ _ _ _ _ _ C _ _ _ L). exact Hb.
 Qed.
 
-(* at most one INITIAL_WINDOW_SIZE entry per SETTINGS frame (see notes) *)
+(* at most one INITIAL_WINDOW_SIZE entry per SETTINGS frame: no longer a hypothesis of any theorem
+   (repair fixes/C09-2); kept as a description of scripts *)
 Definition single_init (ls : list label) : bool :=
   forallb (fun l => match l_frame l with
                     | FSettings kv => Nat.leb (length (filter (fun p => N.eqb (fst p) 4) kv)) 1
                     | _ => true end) ls.
-
-Lemma settings_actions_len y kv :
-  length (settings_actions y kv) = length (filter (fun p => N.eqb (fst p) 4) kv).
-Proof.
-  unfold settings_actions. induction kv as [|[i v] t IH]; simpl; auto.
-  destruct (N.eqb i 4); simpl; auto.
-Qed.
 
 Lemma nosetinit_all x acts :
   Forall (fun a => is_setinit a = false) acts ->
@@ -169,12 +163,10 @@ Proof.
 Qed.
 
 Lemma front_shape f y fr f' acts x :
-  front f y fr = Some (f', acts) ->
-  (match fr with FSettings kv => (length (filter (fun p => N.eqb (fst p) 4) kv) <= 1)%nat | _ => True end) ->
-  shape_ok x acts.
+  front f y fr = Some (f', acts) -> shape_ok x acts.
 Proof.
   unfold front. destruct (negb (frame_ok (f_cont f y) fr)); [discriminate|].
-  intros H Hs. unfold shape_ok.
+  intros H. unfold shape_ok.
   destruct fr as [s es d pad|s es eh pr fid e0|s eh|s p|s c|kv| |s eh pm fid|a d|l c d|s inc].
   - destruct (split_data _ _ s es d) as [qs|]; [|discriminate]. inversion H; subst.
     assert (Hn : forallb (fun a => negb (is_setinit a))
@@ -189,12 +181,9 @@ Proof.
       try destruct (side_eqb (other y) x); exact I || reflexivity.
   - inversion H; subst; unfold acts_to; simpl; destruct (side_eqb (other y) x); exact I || reflexivity.
   - inversion H; subst; unfold acts_to; simpl; destruct (side_eqb (other y) x); exact I || reflexivity.
-  - inversion H; subst. rewrite acts_to_app.
-    pose proof (settings_actions_len y kv) as Hl.
-    destruct (settings_actions y kv) as [|a0 [|a1 r]] eqn:SA; simpl in *.
-    + unfold acts_to. simpl. destruct (side_eqb (other y) x); exact I || reflexivity.
-    + unfold acts_to. simpl. destruct (side_eqb (act_side a0) x), (side_eqb (other y) x); simpl; exact I || reflexivity.
-    + lia.
+  - inversion H; subst. unfold settings_actions, acts_to.
+    destruct (last_occ 4 kv); simpl; try destruct (side_eqb y x); simpl;
+      destruct (side_eqb (other y) x); exact I || reflexivity.
   - inversion H; subst; unfold acts_to; simpl; destruct (side_eqb (other y) x); exact I || reflexivity.
   - destruct eh; inversion H; subst; unfold acts_to; simpl; try destruct (side_eqb (other y) x); exact I || reflexivity.
   - inversion H; subst; unfold acts_to; simpl; destruct (side_eqb (other y) x); exact I || reflexivity.
@@ -208,19 +197,9 @@ Proof.
   destruct k; simpl; [reflexivity|]. f_equal. apply IH. lia.
 Qed.
 
-Lemma single_init_nth ls k l0 :
-  single_init ls = true -> (k < length ls)%nat ->
-  match l_frame (nth k ls l0) with
-  | FSettings kv => (length (filter (fun p => N.eqb (fst p) 4) kv) <= 1)%nat | _ => True end.
+Theorem model_P_stream ls st o : run s0 ls = (st, o) -> P_stream ls o.
 Proof.
-  intros H Hk. unfold single_init in H. rewrite forallb_forall in H.
-  specialize (H (nth k ls l0) (nth_In _ _ Hk)).
-  destruct (l_frame (nth k ls l0)); auto. apply Nat.leb_le. assumption.
-Qed.
-
-Theorem model_P_stream ls st o : single_init ls = true -> run s0 ls = (st, o) -> P_stream ls o.
-Proof.
-  intros Hsi R k x s Hk _ _ Hpos.
+  intros R k x s Hk _ _ Hpos.
   pose proof (run_length _ _ _ _ R) as Hlen.
   destruct (sinv_prefix _ _ _ k R) as (stk & Rk & I); [lia|].
   destruct (sinv_prefix _ _ _ (S k) R) as (stk1 & Rk1 & I1); [lia|].
@@ -236,7 +215,7 @@ Proof.
   destruct (front (sf stk) (l_from (nth k ls l0)) (l_frame (nth k ls l0))) as [[f' acts]|] eqn:F; [|discriminate].
   destruct (bsteps (f_tab f') (sb stk) (l_order (nth k ls l0)) acts) as [b' evs] eqn:B. inversion S; subst.
   destruct (front_ledger _ _ _ _ _ F) as (W & _).
-  pose proof (front_shape _ _ _ _ _ x F (single_init_nth ls k l0 Hsi ltac:(lia))) as Hsh.
+  pose proof (front_shape _ _ _ _ _ x F) as Hsh.
   destruct (bsteps_safe _ _ x s _ _ _ _ _ _ (si_b _ _ _ I) W Hsh B) as (_ & Sf).
   destruct Sf as [Hz|(w & q & L & Hw)]; [lia|].
   destruct (si_b _ _ _ I1 x) as [C1 _]. cbn [sb] in C1.
